@@ -242,7 +242,7 @@ fn case_textdiff(kv: &Kv) -> String {
             _ => panic!("bad tokenizer"),
         }
     }
-    fn same_diff<'a, T: DiffableStr + ?Sized>(a: &TextDiff<'a, 'a, 'a, T>, b: &TextDiff<'a, 'a, 'a, T>) -> bool {
+    fn same_diff<'a, 'b, T: DiffableStr + ?Sized>(a: &TextDiff<'a, 'a, 'a, T>, b: &TextDiff<'b, 'b, 'b, T>) -> bool {
         a.ops() == b.ops()
             && a.algorithm() == b.algorithm()
             && a.newline_terminated() == b.newline_terminated()
@@ -251,18 +251,43 @@ fn case_textdiff(kv: &Kv) -> String {
             && a.old_slices().iter().zip(b.old_slices()).all(|(x, y)| x.as_bytes() == y.as_bytes())
             && a.new_slices().iter().zip(b.new_slices()).all(|(x, y)| x.as_bytes() == y.as_bytes())
     }
+    // the same diff through the other DiffableStrRef instances (String, Cow<str>, Vec<u8>, Cow<[u8]>)
+    fn diff_ref<'a, R: similar::DiffableStrRef + ?Sized>(
+        c: &similar::TextDiffConfig,
+        kind: &str,
+        old: &'a R,
+        new: &'a R,
+    ) -> TextDiff<'a, 'a, 'a, R::Output> {
+        match kind {
+            "lines" => c.diff_lines(old, new),
+            "words" => c.diff_words(old, new),
+            "chars" => c.diff_chars(old, new),
+            "uwords" => c.diff_unicode_words(old, new),
+            "graphemes" => c.diff_graphemes(old, new),
+            _ => panic!("bad tokenizer"),
+        }
+    }
     let defaults = kv["alg"] == "M" && dl.is_none() && via != "timeout_max" && kv.get("nlo").copied().unwrap_or("-") == "-";
     let r = if kv["mode"] == "str" {
         let os = std::str::from_utf8(&o).unwrap();
         let ns = std::str::from_utf8(&n).unwrap();
         let d = diff_with(&c, kind, os, ns);
         let probes = if dl.is_some() { similar::verif::clock_remove() } else { 0 };
-        let cs = !defaults || same_diff(&d, &ctor(kind, os, ns));
+        let mut cs = !defaults || same_diff(&d, &ctor(kind, os, ns));
+        if dl.is_none() {
+            let (so, sn) = (os.to_string(), ns.to_string());
+            let (co, cn): (std::borrow::Cow<str>, std::borrow::Cow<str>) = (std::borrow::Cow::Borrowed(os), std::borrow::Cow::Owned(ns.to_string()));
+            cs = cs && same_diff(&d, &diff_ref(&c, kind, &so, &sn)) && same_diff(&d, &diff_ref(&c, kind, &co, &cn));
+        }
         format!("{} ctor_same={}", textdiff_report(&d, os, ns, probes), if cs { 1 } else { 0 })
     } else {
         let d = diff_with(&c, kind, &o[..], &n[..]);
         let probes = if dl.is_some() { similar::verif::clock_remove() } else { 0 };
-        let cs = !defaults || same_diff(&d, &ctor(kind, &o[..], &n[..]));
+        let mut cs = !defaults || same_diff(&d, &ctor(kind, &o[..], &n[..]));
+        if dl.is_none() {
+            let (co, cn): (std::borrow::Cow<[u8]>, std::borrow::Cow<[u8]>) = (std::borrow::Cow::Owned(o.clone()), std::borrow::Cow::Borrowed(&n[..]));
+            cs = cs && same_diff(&d, &diff_ref(&c, kind, &o, &n)) && same_diff(&d, &diff_ref(&c, kind, &co, &cn));
+        }
         format!("{} ctor_same={}", textdiff_report(&d, &o[..], &n[..], probes), if cs { 1 } else { 0 })
     };
     similar::verif::set_repair_swap(false);
@@ -287,10 +312,22 @@ fn case_udiff(kv: &Kv) -> String {
         via: &str,
     ) -> Vec<u8> {
         let mut u = d.unified_diff();
+        // the same VALUE used before with other settings: render and iterate it once with another radius, the
+        // opposite hint and another header, then configure it as asked (setters called last decide)
+        u.context_radius(radius + 2).missing_newline_hint(!hint).header("x", "y");
+        let _ = u.to_string();
+        let _ = u.iter_hunks().count();
+        let mut sink = vec![];
+        let _ = u.to_writer(&mut sink);
+        let mut fresh = d.unified_diff();
         u.context_radius(radius).missing_newline_hint(hint);
+        fresh.context_radius(radius).missing_newline_hint(hint);
         if header {
             u.header("a", "b");
+            fresh.header("a", "b");
         }
+        // a header cannot be unset; without one compare with a fresh value, otherwise use the reused one
+        let u = if header { u } else { fresh };
         match via {
             "display" => u.to_string().into_bytes(),
             "writer" => {
@@ -438,6 +475,13 @@ fn case_remap(kv: &Kv) -> String {
         let rm = similar::utils::TextDiffRemapper::from_text_diff(&d, os, ns);
         let v2: Vec<(ChangeTag, &str)> = d.ops().iter().flat_map(|op| rm.iter_slices(op)).collect();
         // the other constructor and the two direct slicers must agree with iter_slices
+        // a remapper over separate, equal copies of the texts must give equal slices
+        let (os_copy, ns_copy) = (os.to_string(), ns.to_string());
+        let copy_same = {
+            let rmc = similar::utils::TextDiffRemapper::from_text_diff(&d, &os_copy[..], &ns_copy[..]);
+            let vc: Vec<(ChangeTag, &str)> = d.ops().iter().flat_map(|op| rmc.iter_slices(op)).collect();
+            vc == v2
+        };
         let rm2 = similar::utils::TextDiffRemapper::new(d.old_slices(), d.new_slices(), os, ns);
         let v3: Vec<(ChangeTag, &str)> = d.ops().iter().flat_map(|op| rm2.iter_slices(op)).collect();
         let mut v4: Vec<(ChangeTag, &str)> = vec![];
@@ -453,7 +497,7 @@ fn case_remap(kv: &Kv) -> String {
                 }
             }
         }
-        let same = (if kind == "lines" { true } else { v == v2 }) && v2 == v3 && v2 == v4;
+        let same = (if kind == "lines" { true } else { v == v2 }) && v2 == v3 && v2 == v4 && copy_same;
         format!(
             "slices={} remapper_same={} ops={} otoks={} ntoks={} bounds={}",
             fmt_slices(&v),
@@ -471,6 +515,12 @@ fn case_remap(kv: &Kv) -> String {
         let rm = similar::utils::TextDiffRemapper::from_text_diff(&d, &o[..], &n[..]);
         let v2: Vec<(ChangeTag, &[u8])> = d.ops().iter().flat_map(|op| rm.iter_slices(op)).collect();
         // the other constructor and the two direct slicers must agree with iter_slices
+        let (o_copy, n_copy) = (o.clone(), n.clone());
+        let copy_same = {
+            let rmc = similar::utils::TextDiffRemapper::from_text_diff(&d, &o_copy[..], &n_copy[..]);
+            let vc: Vec<(ChangeTag, &[u8])> = d.ops().iter().flat_map(|op| rmc.iter_slices(op)).collect();
+            vc == v2
+        };
         let rm2 = similar::utils::TextDiffRemapper::new(d.old_slices(), d.new_slices(), &o[..], &n[..]);
         let v3: Vec<(ChangeTag, &[u8])> = d.ops().iter().flat_map(|op| rm2.iter_slices(op)).collect();
         let mut v4: Vec<(ChangeTag, &[u8])> = vec![];
@@ -486,7 +536,7 @@ fn case_remap(kv: &Kv) -> String {
                 }
             }
         }
-        let same = (if kind == "lines" { true } else { v == v2 }) && v2 == v3 && v2 == v4;
+        let same = (if kind == "lines" { true } else { v == v2 }) && v2 == v3 && v2 == v4 && copy_same;
         format!(
             "slices={} remapper_same={} ops={} otoks={} ntoks={} bounds={}",
             fmt_slices(&v),
@@ -603,8 +653,25 @@ fn case_close(kv: &Kv) -> String {
     };
     let n: usize = kv["n"].parse().unwrap();
     let cutoff = f32::from_bits(kv["cutoff"].parse::<u32>().unwrap());
-    let w = std::str::from_utf8(&word).unwrap();
-    let cs: Vec<&str> = cands.iter().map(|c| std::str::from_utf8(c).unwrap()).collect();
+    // word and candidates share buffers where they can: a candidate that is a prefix of the word is a sub-slice of
+    // the word's own buffer, and if the word is a proper prefix of some candidate, the word is a sub-slice of that
+    // candidate's buffer (aliasing must not matter)
+    let host: Option<&Vec<u8>> = cands.iter().find(|c| c.len() > word.len() && c.starts_with(&word));
+    let wbuf: &[u8] = match host {
+        Some(h) => &h[..word.len()],
+        None => &word[..],
+    };
+    let w = std::str::from_utf8(wbuf).unwrap();
+    let cs: Vec<&str> = cands
+        .iter()
+        .map(|c| {
+            if c.len() <= wbuf.len() && wbuf.starts_with(c) {
+                std::str::from_utf8(&wbuf[..c.len()]).unwrap()
+            } else {
+                std::str::from_utf8(c).unwrap()
+            }
+        })
+        .collect();
     let r = similar::get_close_matches(w, &cs, n, cutoff);
     // also report each candidate's ratio bits so the oracle can be checked independently
     let ratios: Vec<String> = cs
@@ -692,6 +759,37 @@ fn case_repeat(kv: &Kv) -> String {
         let o3: Vec<Constant> = old.iter().map(|x| Constant(*x)).collect();
         let n3: Vec<Constant> = new.iter().map(|x| Constant(*x)).collect();
         if similar::capture_diff(alg, &o3[..], os..oe, &n3[..], ns..ne) != base {
+            all_same = false;
+        }
+        // equal contents: the very same object passed as old and as new (aliasing must not matter), through the
+        // capture function and through the raw algorithm with a recording hook
+        if old == new {
+            if similar::capture_diff(alg, &old[..], os..oe, &old[..], ns..ne) != base {
+                all_same = false;
+            }
+            let mut h = similar::algorithms::Capture::new();
+            similar::algorithms::diff(alg, &mut h, &old[..], os..oe, &old[..], ns..ne).unwrap();
+            let mut h2 = similar::algorithms::Capture::new();
+            similar::algorithms::diff(alg, &mut h2, &old[..], os..oe, &new[..], ns..ne).unwrap();
+            if h.ops() != h2.ops() {
+                all_same = false;
+            }
+        }
+        // old and new of DIFFERENT item types that compare equal across types while hashing differently
+        #[derive(PartialEq, Eq, PartialOrd, Ord, Clone, Copy)]
+        struct Wide(u64);
+        impl std::hash::Hash for Wide {
+            fn hash<H: std::hash::Hasher>(&self, state: &mut H) {
+                (self.0 ^ 0x5555_5555_5555_5555u64).rotate_left(17).hash(state)
+            }
+        }
+        impl PartialEq<u64> for Wide {
+            fn eq(&self, other: &u64) -> bool {
+                self.0 == *other
+            }
+        }
+        let nw: Vec<Wide> = new.iter().map(|x| Wide(*x)).collect();
+        if similar::capture_diff(alg, &old[..], os..oe, &nw[..], ns..ne) != base {
             all_same = false;
         }
         // the slice entry points (capture_diff_slices, utils::diff_slices) on the same colliding-hash items
